@@ -433,8 +433,10 @@ fn handle_diff<T: Clone>(
 
                 // There is space for this new item.
                 res.push(VectorDiff::Insert {
-                    // Subtract 1 because `insert` adds a value compared to `previous_length`.
-                    index: (index - index_of_limit).saturating_sub(1),
+                    // If a value was popped at the front to make room, all indices in
+                    // the view are shifted by 1. Otherwise the view starts at index 0
+                    // of the source (`index_of_limit` is 0) and the index is unchanged.
+                    index: if is_full { index - index_of_limit - 1 } else { index },
                     value,
                 });
             } else {
